@@ -1037,51 +1037,43 @@ DLLIMPORT cfg_value_t *cfg_setopt(cfg_t *cfg, cfg_opt_t *opt, const char *value)
 
 	case CFGT_SEC:
 		if (is_set(CFGF_MULTI, opt->flags) || val->section == NULL) {
+			/* build the new section completely before it replaces anything */
+			cfg_t *sec = calloc(1, sizeof(cfg_t));
+
+			if (sec)
+				sec->name = strdup(opt->name);
+			if (sec && sec->name && cfg->filename)
+				sec->filename = strdup(cfg->filename);
+			if (sec && sec->name && value)
+				sec->title = strdup(value);
+			if (sec && sec->name && (!cfg->filename || sec->filename) && (!value || sec->title))
+				sec->opts = cfg_dupopt_array(opt->subopts);
+			if (!sec || !sec->opts) {
+				if (sec) {
+					free(sec->title);
+					free(sec->filename);
+					free(sec->name);
+					free(sec);
+				}
+				if (!val->section) {
+					/* the value slot was added for this instance, take it back */
+					opt->nvalues--;
+					free(val);
+				}
+				return NULL;
+			}
+
+			sec->flags = cfg->flags;
+			if (is_set(CFGF_KEYSTRVAL, opt->flags))
+				sec->flags |= CFGF_KEYSTRVAL;
+			sec->line = cfg->line;
+			sec->errfunc = cfg->errfunc;
+
 			if (val->section) {
 				val->section->path = NULL; /* Global search path */
 				cfg_free(val->section);
 			}
-			val->section = calloc(1, sizeof(cfg_t));
-			if (!val->section)
-				return NULL;
-
-			val->section->name = strdup(opt->name);
-			if (!val->section->name) {
-				free(val->section);
-				return NULL;
-			}
-
-			val->section->flags = cfg->flags;
-			if (is_set(CFGF_KEYSTRVAL, opt->flags))
-				val->section->flags |= CFGF_KEYSTRVAL;
-
-			val->section->filename = cfg->filename ? strdup(cfg->filename) : NULL;
-			if (cfg->filename && !val->section->filename) {
-				free(val->section->name);
-				free(val->section);
-				return NULL;
-			}
-
-			val->section->line = cfg->line;
-			val->section->errfunc = cfg->errfunc;
-			val->section->title = value ? strdup(value) : NULL;
-			if (value && !val->section->title) {
-				free(val->section->filename);
-				free(val->section->name);
-				free(val->section);
-				return NULL;
-			}
-
-			val->section->opts = cfg_dupopt_array(opt->subopts);
-			if (!val->section->opts) {
-				if (val->section->title)
-					free(val->section->title);
-				if (val->section->filename)
-					free(val->section->filename);
-				free(val->section->name);
-				free(val->section);
-				return NULL;
-			}
+			val->section = sec;
 		}
 		if (!is_set(CFGF_DEFINIT, opt->flags))
 			cfg_init_defaults(val->section);
